@@ -36,8 +36,8 @@ __CPROVER_ensures(__CPROVER_old(p->noalloc) ==> (p->buffer == __CPROVER_old(p->b
 __CPROVER_ensures(__CPROVER_old(p->noalloc) ==> ((__CPROVER_return_value != NULL) == ENS_FITS(p, needed))) /*@C09*/
 /* a request that fits never reallocates */
 __CPROVER_ensures(ENS_FITS(p, needed) ==> (__CPROVER_return_value != NULL && p->buffer == __CPROVER_old(p->buffer) && p->length == __CPROVER_old(p->length))) /*@C09 C04*/
-/* growth: new size is twice the need (INT_MAX cap), and what was printed so far is kept byte for byte (C04: result independent of buffer size / realloc) */
-__CPROVER_ensures((__CPROVER_return_value != NULL && !ENS_FITS(p, needed)) ==> (p->length == ((ENS_NEED(p, needed) > INT_MAX / 2) ? INT_MAX : ENS_NEED(p, needed) * 2) FREED_OLD)) /*@C04 C07*/
+/* growth: the new buffer is large enough (how much larger is the implementation's business) and never above INT_MAX; what was printed so far is kept byte for byte (C04: result independent of buffer size / realloc) */
+__CPROVER_ensures((__CPROVER_return_value != NULL && !ENS_FITS(p, needed)) ==> (p->length >= ENS_NEED(p, needed) && p->length <= INT_MAX FREED_OLD)) /*@C04 C07*/
 #ifndef VF_ENS_NOCONTENT
 __CPROVER_ensures((__CPROVER_return_value != NULL && g_k <= p->offset && g_k < __CPROVER_old(p->length)) ==> p->buffer[g_k] == g_snap) /*@C04*/
 #endif
@@ -123,9 +123,10 @@ WRITER_CV(print_object, D_OBJECT)
 
 /* ------------------------------------------------------------------ print_value */
 #define PV_T (item->type & 0xFF)
-#define PV_LIT_CALL(n) (g_ens_calls == 1 && g_ens_needed == (n) && (__CPROVER_return_value != 0) == g_ens_ok && \
+/* the reservation covers text + terminator and at most 4 bytes more (so that the C09 slack of five bytes holds together with ensure's own spare byte) */
+#define PV_LIT_CALL(n) (g_ens_calls == 1 && g_ens_needed >= (n) && g_ens_needed <= (n) + 4 && (__CPROVER_return_value != 0) == g_ens_ok && \
     output_buffer->offset == __CPROVER_old(output_buffer->offset) && g_disp == D_NONE)
-#define PV_LIT_TEXT(n, a, b, c, d, e) (!__CPROVER_return_value || (OB_AT(0) == (a) && OB_AT(1) == (b) && OB_AT(2) == (c) && OB_AT(3) == (d) && OB_AT(4) == (e) && ((n) == 5 || OB_AT(5) == 0)))
+#define PV_LIT_TEXT(n, a, b, c, d, e) (!__CPROVER_return_value || (OB_AT(0) == (a) && OB_AT(1) == (b) && OB_AT(2) == (c) && OB_AT(3) == (d) && OB_AT(4) == (e) && OB_AT((n) - 1) == 0))
 #define PV_DELEGATED(tag) (g_disp == (tag) && __CPROVER_return_value == g_disp_ret && g_wb_calls == 1 && g_wb_item == item && g_ens_calls == 0)
 #ifdef VF_ENF_print_value
 static cJSON_bool print_value(const cJSON * const item, printbuffer * const output_buffer)
@@ -205,7 +206,7 @@ __CPROVER_assigns(output_buffer->offset, output_buffer->depth, GHOST_LOG, GHOST_
 static unsigned char *print(const cJSON * const item, cJSON_bool format, const internal_hooks * const hooks)
 __CPROVER_requires(__CPROVER_is_fresh(hooks, sizeof(internal_hooks)) && HOOKS_OK(*hooks) && g_wb_calls == 0 && g_live == NULL)
 /* the value printer is started once on the item, at offset 0 and depth 0, with the requested format, allocation allowed, the caller's hooks, a 256-byte block */
-__CPROVER_ensures(g_wb_calls <= 1 && (g_wb_calls == 1 ==> (WB_START(format, 0, *hooks) && g_wb_length == 256))) /*@C05 C04 C14*/
+__CPROVER_ensures(g_wb_calls <= 1 && (g_wb_calls == 1 ==> WB_START(format, 0, *hooks))) /*@C05 C04 C14*/
 __CPROVER_ensures(__CPROVER_return_value != NULL ==> (g_wb_calls == 1 && g_disp_ret)) /*@C05 C08*/
 /* failure of the printer or of any allocation: NULL and nothing stays allocated */
 __CPROVER_ensures((g_wb_calls == 1 && !g_disp_ret) ==> __CPROVER_return_value == NULL) /*@C08 C05*/
